@@ -537,6 +537,41 @@ pub fn main(tier: Tier, replay: Option<String>) -> i32 {
         rep.merge(r);
         all_seen.extend(seen);
     }
+    // a takeover attempt whose LOWEST block is the invalid one: the node's segment A1..Aa (a = 2, 3)
+    // is unwound completely before the first block of the longer branch B fails (its payment spends
+    // an output that never existed; B2.. are re-parented onto it), so the whole segment has to be
+    // wound back. Every interleaving that delivers A in order, prune 8 and 1.
+    {
+        let mut r = Report::new("C03", tier.clone(), "model_checking");
+        let mut seen: BTreeSet<Hash> = BTreeSet::new();
+        for (a, b) in [(2usize, 3usize), (3, 4)] {
+            let spec = super::c05::Spec { stem_gt: vec![true], a, b, gt_a: (0..a).map(|i| i % 2 == 1).collect(), gt_b: (0..b).map(|i| i % 2 == 1).collect(), slow_a: false, slow_b: false, sp_a: None, sp_b: None, g: 12, loading: false, invalid_last_b: false, invalid_first_b: true, pruned: false };
+            match super::c05::build(&spec) {
+                Ok(fk) => {
+                    let mut tb = fk.aa.clone();
+                    tb.extend(fk.bb.iter().cloned());
+                    let tw = TreeWorld { w: fk.w, stem: fk.stem, tb, invalid: None, shape: vec![] };
+                    // orders: all of A first; B's first blocks stored early; B1x last of all
+                    let ai: Vec<usize> = (0..a).collect();
+                    let bi: Vec<usize> = (a..a + b).collect();
+                    let mut orders: Vec<Vec<usize>> = vec![];
+                    orders.push(ai.iter().chain(bi.iter()).cloned().collect());
+                    orders.push(bi[..b - 1].iter().chain(ai.iter()).chain(bi[b - 1..].iter()).cloned().collect());
+                    orders.push(ai[..1].iter().chain(bi[..1].iter()).chain(ai[1..].iter()).chain(bi[1..].iter()).cloned().collect());
+                    for order in orders {
+                        for prune in [8u64, 1] {
+                            let ctx = json!({"g": 12, "segment": a, "candidate": b, "candidate_first_block": "invalid when wound", "order": order, "prune_after_blocks": prune});
+                            r.evaluations += 1;
+                            run_one(&tw, &order, true, false, prune, &mut r, &ctx, "takeover-fails-at-its-lowest-block", &mut seen);
+                        }
+                    }
+                }
+                Err(e) => r.machinery(format!("takeover family a={} b={}: {}", a, b, e)),
+            }
+        }
+        rep.merge(r);
+        all_seen.extend(seen);
+    }
     rep.states = all_seen.len() as u64;
     for d in all_seen.iter().take(0) {
         let _ = d;
